@@ -8,7 +8,9 @@ from .. import core, genpf, pytrack as pt, sx
 from . import modside as ms
 
 THEOREMS = ['C03.journal_is_declaration', 'C03.memoisation_keeps_journal', 'C03.symbol_id_is_table_position',
-            'C03.symbol_ids_injective', 'C03.symbol_id_stable', 'C03.ids_fit_in_a_byte']
+            'C03.symbol_ids_injective', 'C03.symbol_id_stable', 'C03.ids_fit_in_a_byte',
+            # the phases as written are the model (Pi2/Props/C08b.lean, Pi2/ProofTie.lean, vlib/transproof.py)
+            'C03.phases_text_is_the_model', 'C03.memo_phases_text_is_the_model', 'C03.serialize_text_shape']
 
 
 def declared(m):
@@ -75,7 +77,7 @@ def id_module(i):
 
 def run(rep):
     rng = random.Random(rep.seed * 1000003 + 3)
-    ok, detail = core.proof_gate(rep, 'Pi2.Props.C02', THEOREMS)
+    ok, detail = core.proof_gate(rep, 'Pi2.Props.C08b', THEOREMS)
     quick = rep.tier == 'quick'
     mods = ms.gen_modules(rng, 100 if quick else 2000)
     # diamond imports and duplicated axioms
